@@ -25,6 +25,11 @@ import Mathlib.Data.List.Basic
      unless the digests collide), `textCanon_idem`, `textCanon_crlf`.
   4. Packets: `msgParse_{seipd,sed,aead}Packet`, and end to end `seipd_message_roundtrip`,
      `aead_message_roundtrip`.
+  5. Hashed and unhashed signature subpackets (`sigFields`): `unhashed_only_issuer`,
+     `unhashed_irrelevant`, `unhashed_irrelevant_valid` (creation time, expiry, key expiry, key flags,
+     features, preferences, revocation data and hence the validity verdict never depend on the unhashed
+     area), `unhashed_agree'`, `hashed_wins_{issuer,fingerprint,embedded}`, examples
+     `example_unhashed_ignored`, `example_hashed_wins`, `unhashed_agree_counterexample`.
 -/
 set_option linter.unusedSimpArgs false
 set_option linter.unusedSectionVars false
@@ -1577,5 +1582,247 @@ theorem aead_message_roundtrip (E : Bytes → Bytes → Bytes) (sha1 : Bytes →
     if_neg (by omega), if_neg (by simp)]
   rw [hrt]
   simp
+
+/-! ### 5. hashed and unhashed signature subpackets -/
+
+/-- the context without the three things `PacketContextEvaluate` may take from the unhashed area:
+    issuer key ID, issuer fingerprint (with its version octet), embedded signature -/
+def SigCtx.core (c : SigCtx) : SigCtx :=
+  { c with issuer := [], issuerVer := 0, issuerFpr := [], embedded := [] }
+
+theorem ctxEvaluate_core (u out : SigCtx) : (ctxEvaluate u out).core = out.core := by
+  unfold ctxEvaluate SigCtx.core
+  simp only
+  split_ifs <;> rfl
+
+/-- shape of a successful `sigFields` -/
+theorem sigFields_ok_shape (h u : List Subpacket) (f : AreaResult) (hf : sigFields h u = .ok f) :
+    ∃ hr, sigFields h [] = .ok hr ∧
+      ((u = [] ∧ f = hr) ∨
+       (u ≠ [] ∧ ∃ ur, parseSubs u ⟨2, scratchCtx, [], [], []⟩ = some ur ∧
+          f = { hr with ctx := ctxEvaluate ur.ctx hr.ctx,
+                        embeddedsigs := hr.embeddedsigs ++ ur.embeddedsigs })) := by
+  unfold sigFields at hf ⊢
+  generalize (if h = [] then some (⟨2, {}, [], [], []⟩ : AreaResult)
+      else parseSubs h ⟨2, {}, [], [], []⟩) = hp at hf ⊢
+  cases hp with
+  | none => simp at hf
+  | some hr =>
+    simp only at hf ⊢
+    by_cases hc : h ≠ [] ∧ hr.tag = 0xFA
+    · rw [if_pos hc] at hf; simp at hf
+    · rw [if_neg hc] at hf ⊢
+      refine ⟨hr, by simp, ?_⟩
+      by_cases hu : u = []
+      · rw [if_pos hu] at hf
+        left; exact ⟨hu, (SigParse.ok.inj hf).symm⟩
+      · rw [if_neg hu] at hf
+        right
+        refine ⟨hu, ?_⟩
+        cases hpu : parseSubs u ⟨2, scratchCtx, [], [], []⟩ with
+        | none => rw [hpu] at hf; simp at hf
+        | some ur =>
+          rw [hpu] at hf
+          exact ⟨ur, rfl, (SigParse.ok.inj hf).symm⟩
+
+/-- whatever the unhashed area holds, every field but issuer / issuer fingerprint / embedded signatures
+    is the one the hashed area alone gives -/
+theorem unhashed_only_issuer (h u : List Subpacket) (f : AreaResult) (hf : sigFields h u = .ok f) :
+    ∃ f0, sigFields h [] = .ok f0 ∧ f.ctx.core = f0.ctx.core ∧ f.tag = f0.tag ∧
+      f.notations = f0.notations ∧ f.recipients = f0.recipients := by
+  obtain ⟨hr, h0, hcase⟩ := sigFields_ok_shape h u f hf
+  refine ⟨hr, h0, ?_⟩
+  rcases hcase with ⟨_, rfl⟩ | ⟨_, ur, _, rfl⟩
+  · exact ⟨rfl, rfl, rfl, rfl⟩
+  · exact ⟨ctxEvaluate_core _ _, rfl, rfl, rfl⟩
+
+theorem unhashed_irrelevant (h u1 u2 : List Subpacket) (f1 f2 : AreaResult)
+    (h1 : sigFields h u1 = .ok f1) (h2 : sigFields h u2 = .ok f2) :
+    f1.ctx.core = f2.ctx.core ∧ f1.tag = f2.tag ∧ f1.notations = f2.notations ∧
+      f1.recipients = f2.recipients := by
+  obtain ⟨a, ha, a1, a2, a3, a4⟩ := unhashed_only_issuer h u1 f1 h1
+  obtain ⟨b, hb, b1, b2, b3, b4⟩ := unhashed_only_issuer h u2 f2 h2
+  rw [ha] at hb
+  obtain rfl := SigParse.ok.inj hb
+  exact ⟨a1.trans b1.symm, a2.trans b2.symm, a3.trans b3.symm, a4.trans b4.symm⟩
+
+theorem unhashed_irrelevant_valid (h u1 u2 : List Subpacket) (f1 f2 : AreaResult)
+    (h1 : sigFields h u1 = .ok f1) (h2 : sigFields h u2 = .ok f2)
+    (version type pkalgo hashalgo keycreation now : Nat) :
+    sigValid version type pkalgo hashalgo f1.ctx keycreation now =
+      sigValid version type pkalgo hashalgo f2.ctx keycreation now := by
+  have hc := (unhashed_irrelevant h u1 u2 f1 f2 h1 h2).1
+  have e1 : f1.ctx.core.creation = f2.ctx.core.creation := congrArg SigCtx.creation hc
+  have e2 : f1.ctx.core.expiration = f2.ctx.core.expiration := congrArg SigCtx.expiration hc
+  change f1.ctx.creation = f2.ctx.creation at e1
+  change f1.ctx.expiration = f2.ctx.expiration at e2
+  unfold sigValid sigOfCtx
+  rw [e1, e2]
+
+/-- the subpackets of an area that can reach the result from the unhashed side -/
+def issuerSubs (l : List Subpacket) : List Subpacket :=
+  l.filter (fun sp => sp.type = 16 ∨ sp.type = 33 ∨ sp.type = 32)
+
+/-- what a subpacket does to issuer, issuer version, issuer fingerprint, embedded signature and the
+    list of embedded signatures -/
+def issuerStep (st : Bytes × Nat × Bytes × Bytes × List Bytes) (sp : Subpacket) :
+    Bytes × Nat × Bytes × Bytes × List Bytes :=
+  if sp.type = 16 then (sp.body, st.2.1, st.2.2.1, st.2.2.2.1, st.2.2.2.2)
+  else if sp.type = 33 then
+    if sp.body.headD 0 = 4 ∨ sp.body.headD 0 = 5 then
+      (st.1, sp.body.headD 0, overwrite st.2.2.1 (sp.body.drop 1), st.2.2.2.1, st.2.2.2.2)
+    else (st.1, sp.body.headD 0, st.2.2.1, st.2.2.2.1, st.2.2.2.2)
+  else if sp.type = 32 then
+    (st.1, st.2.1, st.2.2.1, sp.body, if sp.body ≠ [] then st.2.2.2.2 ++ [sp.body] else st.2.2.2.2)
+  else st
+
+def issuerProj (r : AreaResult) : Bytes × Nat × Bytes × Bytes × List Bytes :=
+  (r.ctx.issuer, r.ctx.issuerVer, r.ctx.issuerFpr, r.ctx.embedded, r.embeddedsigs)
+
+theorem applySub_issuer (c c' : SigCtx) (sp : Subpacket) (rec : Bool) (sigs : List Bytes)
+    (h : applySub c sp = some (c', rec)) :
+    (c'.issuer, c'.issuerVer, c'.issuerFpr, c'.embedded,
+        if sp.type = 32 ∧ sp.body ≠ [] then sigs ++ [sp.body] else sigs) =
+      issuerStep (c.issuer, c.issuerVer, c.issuerFpr, c.embedded, sigs) sp ∧
+    (sp.type = 32 → rec = true) := by
+  unfold applySub at h
+  unfold issuerStep
+  simp only at h
+  split at h <;> rename_i ht <;> (try simp only [ht]) <;> (try split_ifs at h) <;>
+    simp_all <;> (try (obtain ⟨rfl, _⟩ := h; simp))
+
+theorem parseSubs_issuer (l : List Subpacket) : ∀ (r r' : AreaResult), parseSubs l r = some r' →
+    issuerProj r' = l.foldl issuerStep (issuerProj r) := by
+  induction l with
+  | nil => intro r r' h; simp [parseSubs] at h; subst h; rfl
+  | cons sp rest ih =>
+    intro r r' h
+    rw [parseSubs] at h
+    cases happ : applySub r.ctx sp with
+    | none => rw [happ] at h; simp at h
+    | some p =>
+      obtain ⟨c, rec⟩ := p
+      rw [happ] at h
+      obtain ⟨hA, hrec⟩ := applySub_issuer r.ctx c sp rec r.embeddedsigs happ
+      simp only at h
+      rw [List.foldl_cons]
+      have key : ∀ r1 : AreaResult, parseSubs rest r1 = some r' →
+          issuerProj r1 = issuerStep (issuerProj r) sp →
+          issuerProj r' = List.foldl issuerStep (issuerStep (issuerProj r) sp) rest := by
+        intro r1 h1 h2; rw [← h2]; exact ih r1 r' h1
+      split_ifs at h <;> refine key _ h ?_ <;> simp_all [issuerProj]
+
+theorem foldl_issuerSubs (l : List Subpacket) : ∀ st,
+    l.foldl issuerStep st = (issuerSubs l).foldl issuerStep st := by
+  induction l with
+  | nil => intro st; rfl
+  | cons sp rest ih =>
+    intro st
+    unfold issuerSubs
+    rw [List.filter_cons]
+    by_cases hp : sp.type = 16 ∨ sp.type = 33 ∨ sp.type = 32
+    · simp only [hp, decide_true, if_true, List.foldl_cons]
+      exact ih _
+    · simp only [hp, decide_false, Bool.false_eq_true, if_false, List.foldl_cons]
+      have : issuerStep st sp = st := by
+        unfold issuerStep
+        rw [not_or, not_or] at hp
+        simp [hp.1, hp.2.1, hp.2.2]
+      rw [this]
+      exact ih _
+
+/- The statement originally given here,
+     theorem unhashed_agree (h u1 u2 : List Subpacket) (f1 f2 : AreaResult)
+         (hagree : issuerSubs u1 = issuerSubs u2)
+         (h1 : sigFields h u1 = .ok f1) (h2 : sigFields h u2 = .ok f2) : f1 = f2
+   is FALSE (`unhashed_agree_counterexample`); `unhashed_agree'` adds `u1 = [] ↔ u2 = []`. -/
+
+/-- the statement `unhashed_agree` (without a hypothesis on emptiness) is false: an empty unhashed
+    area skips `ctxEvaluate`, a non-empty one without any issuer subpacket resets the version octet of
+    an all-zero / unknown-version hashed issuer fingerprint -/
+theorem unhashed_agree_counterexample :
+    ∃ (h u1 u2 : List Subpacket) (f1 f2 : AreaResult), issuerSubs u1 = issuerSubs u2 ∧
+      sigFields h u1 = .ok f1 ∧ sigFields h u2 = .ok f2 ∧ f1 ≠ f2 :=
+  ⟨[⟨33, false, [6, 0]⟩], [], [⟨2, false, [0, 0, 0, 0]⟩], _, _, by decide, rfl, rfl, by decide⟩
+
+/-- two unhashed areas that agree on the subpackets of types 16, 33 and 32 (and are both empty or both
+    non-empty) give the same result in every field -/
+theorem unhashed_agree' (h u1 u2 : List Subpacket) (f1 f2 : AreaResult)
+    (hagree : issuerSubs u1 = issuerSubs u2) (hempty : u1 = [] ↔ u2 = [])
+    (h1 : sigFields h u1 = .ok f1) (h2 : sigFields h u2 = .ok f2) : f1 = f2 := by
+  obtain ⟨a, ha, ca⟩ := sigFields_ok_shape h u1 f1 h1
+  obtain ⟨b, hb, cb⟩ := sigFields_ok_shape h u2 f2 h2
+  rw [ha] at hb
+  obtain rfl := SigParse.ok.inj hb
+  rcases ca with ⟨e1, rfl⟩ | ⟨n1, r1, p1, rfl⟩
+  · rcases cb with ⟨_, rfl⟩ | ⟨n2, _⟩
+    · rfl
+    · exact absurd (hempty.1 e1) n2
+  · rcases cb with ⟨e2, _⟩ | ⟨n2, r2, p2, rfl⟩
+    · exact absurd (hempty.2 e2) n1
+    · have q1 := parseSubs_issuer u1 _ _ p1
+      have q2 := parseSubs_issuer u2 _ _ p2
+      rw [foldl_issuerSubs] at q1 q2
+      rw [hagree, ← q2] at q1
+      simp only [issuerProj, Prod.mk.injEq] at q1
+      obtain ⟨e1, e2, e3, e4, e5⟩ := q1
+      unfold ctxEvaluate
+      simp only [e1, e2, e3, e4, e5]
+
+/-- **the hashed area wins**: an issuer key ID set there is not overridden -/
+theorem hashed_wins_issuer (h u : List Subpacket) (f f0 : AreaResult)
+    (hf : sigFields h u = .ok f) (h0 : sigFields h [] = .ok f0) (hset : allZero f0.ctx.issuer = false) :
+    f.ctx.issuer = f0.ctx.issuer := by
+  obtain ⟨a, ha, ca⟩ := sigFields_ok_shape h u f hf
+  rw [ha] at h0
+  obtain rfl := SigParse.ok.inj h0
+  rcases ca with ⟨_, rfl⟩ | ⟨_, r, _, rfl⟩
+  · rfl
+  · unfold ctxEvaluate
+    simp only [hset, Bool.false_eq_true, if_false]
+    split_ifs <;> rfl
+
+theorem hashed_wins_fingerprint (h u : List Subpacket) (f f0 : AreaResult)
+    (hf : sigFields h u = .ok f) (h0 : sigFields h [] = .ok f0) (hset : allZero f0.ctx.issuerFpr = false) :
+    f.ctx.issuerFpr = f0.ctx.issuerFpr ∧ f.ctx.issuerVer = f0.ctx.issuerVer := by
+  obtain ⟨a, ha, ca⟩ := sigFields_ok_shape h u f hf
+  rw [ha] at h0
+  obtain rfl := SigParse.ok.inj h0
+  rcases ca with ⟨_, rfl⟩ | ⟨_, r, _, rfl⟩
+  · exact ⟨rfl, rfl⟩
+  · unfold ctxEvaluate
+    simp only
+    split_ifs <;> simp_all
+
+theorem hashed_wins_embedded (h u : List Subpacket) (f f0 : AreaResult)
+    (hf : sigFields h u = .ok f) (h0 : sigFields h [] = .ok f0) (hset : f0.ctx.embedded ≠ []) :
+    f.ctx.embedded = f0.ctx.embedded := by
+  obtain ⟨a, ha, ca⟩ := sigFields_ok_shape h u f hf
+  rw [ha] at h0
+  obtain rfl := SigParse.ok.inj h0
+  rcases ca with ⟨_, rfl⟩ | ⟨_, r, _, rfl⟩
+  · rfl
+  · unfold ctxEvaluate
+    simp only
+    split_ifs <;> simp_all
+
+def exHashed : List Subpacket := [⟨2, false, [95, 94, 16, 0]⟩, ⟨3, false, [0, 0, 1, 244]⟩]
+def exUnhashed : List Subpacket :=
+  [⟨2, false, [95, 94, 32, 0]⟩, ⟨3, false, [0, 0, 0, 0]⟩, ⟨27, false, [255]⟩, ⟨9, false, [0, 0, 0, 1]⟩,
+   ⟨16, false, [1, 2, 3, 4, 5, 6, 7, 8]⟩]
+
+theorem example_unhashed_ignored :
+    ∃ f, sigFields exHashed exUnhashed = .ok f ∧ f.ctx.creation = 1600000000 ∧ f.ctx.expiration = 500 ∧
+      f.ctx.keyflags = [] ∧ f.ctx.keyexpiration = 0 ∧ f.ctx.issuer = [1, 2, 3, 4, 5, 6, 7, 8] ∧
+      sigValid 4 0 1 8 f.ctx 1500000000 1600001000 = false ∧
+      sigValid 4 0 1 8 f.ctx 1500000000 1600000100 = true := by
+  refine ⟨_, rfl, ?_, ?_, ?_, ?_, ?_, ?_, ?_⟩ <;> decide
+
+/-- non-vacuity of `hashed_wins_issuer`: both areas name an issuer, the hashed one stays -/
+theorem example_hashed_wins :
+    ∃ f, sigFields (exHashed ++ [⟨16, false, [9, 9, 9, 9, 9, 9, 9, 9]⟩]) exUnhashed = .ok f ∧
+      f.ctx.issuer = [9, 9, 9, 9, 9, 9, 9, 9] := by
+  refine ⟨_, rfl, ?_⟩
+  decide
 
 end Tmcg.PgpMsg
